@@ -6,7 +6,7 @@
 EXTENDS Vec, SequencesExt, IOUtils
 
 CONSTANTS Stride       \* take every Stride-th depth-2 case
-VARIABLES lvl, i
+VARIABLES v_lvl, v_idx
 
 Offset == SeedMod(Stride)
 
@@ -77,8 +77,8 @@ Expr(j) == IF j < ND1 THEN D1(j) ELSE IF j < ND1 + ND2 THEN D2(j - ND1) ELSE D3(
 
 Picked == (0..(ND1 - 1)) \cup {ND1 + Offset + Stride * m : m \in 0..((ND2 + ND3 - 1 - Offset) \div Stride)}
 
-Init == GenInit(lvl, i)
-Next == GenNext(lvl, i, Picked, 64)
+Init == GenInit(v_lvl, v_idx)
+Next == GenNext(v_lvl, v_idx, Picked, 64)
 
 Case(j) ==
   LET e == Expr(j)
@@ -88,5 +88,5 @@ Case(j) ==
               ELSE <<SetS("r", e), DoS(CallE("id", <<NameE("r")>>))>>
   IN RenderVec("C05-" \o ToString(j), "expr", Tpl1("t", body), "t", Ctx, [depth |-> IF j < ND1 THEN 1 ELSE IF j < ND1 + ND2 THEN 2 ELSE 3])
 
-Out == lvl < 2 \/ Emit(Case(i))
+Out == v_lvl < 2 \/ Emit(Case(v_idx))
 =============================================================================
